@@ -48,10 +48,20 @@ PLAN = {
         item("h_stream", "range_msg", 1_200_000, 32_000_000, param=18, max_len=(1024, 16384)),
         item("h_symbol", "c16_bits", 800_000, 24_000_000, param=18, max_len=(1024, 8192)),
         item("h_model", "categorical", 200_000, 8_000_000, param=18, max_len=(2048, 16384)),
+        item("h_model", "leaky", 24_000, 1_000_000, param=18, max_len=(2048, 4096)),
     ],
-    "C03": [item("h_model", "categorical", 400_000, 16_000_000, param=3, max_len=(2048, 16384))],
-    "C05": [item("h_model", "categorical", 300_000, 12_000_000, param=5, max_len=(2048, 16384))],
-    "C19": [item("h_model", "categorical", 600_000, 24_000_000, param=19, max_len=(2048, 16384))],
+    "C03": [
+        item("h_model", "categorical", 400_000, 16_000_000, param=3, max_len=(2048, 16384)),
+        item("h_model", "leaky", 48_000, 2_000_000, param=3, max_len=(2048, 4096)),
+    ],
+    "C05": [
+        item("h_model", "categorical", 300_000, 12_000_000, param=5, max_len=(2048, 16384)),
+        item("h_model", "leaky", 32_000, 1_500_000, param=5, max_len=(2048, 4096)),
+    ],
+    "C19": [
+        item("h_model", "categorical", 600_000, 24_000_000, param=19, max_len=(2048, 16384)),
+        item("h_model", "leaky", 48_000, 2_000_000, param=19, max_len=(2048, 4096)),
+    ],
 }
 
 CHAIN_GRID = ("chain-coder grid (Word/State: precisions, switchable by change_precision): u8/u16: 8,3,1; u8/u32: 8,5,1; u8/u64: 8,4; "
